@@ -208,6 +208,28 @@ func (e *Exec) checkMaturities(pre, post *AppState, mats []Maturity, h int64) {
 
 // checkParams: a parameter changes only through a governance message of its owner, and that
 // message changes that parameter alone (C17).
+// checkParamsUntouched (model-free): outside transactions - in BeginBlock and EndBlock - no parameter changes.
+func (e *Exec) checkParamsUntouched(before, after *AppState, phase string) {
+	if before == nil || after == nil {
+		return
+	}
+	var changed []string
+	for k, v := range after.Params {
+		if ov, ok := before.Params[k]; !ok || ov != v {
+			changed = append(changed, k)
+		}
+	}
+	for k := range before.Params {
+		if _, ok := after.Params[k]; !ok {
+			changed = append(changed, k)
+		}
+	}
+	if len(changed) > 0 {
+		sort.Strings(changed)
+		e.addViol(viol("C17", "param-changed-without-gov-msg", e.step, map[string]string{"kind": phase}, "%s changed parameter(s) %v: no governance message was involved", phase, changed))
+	}
+}
+
 func (e *Exec) checkParams(before, after *AppState, spec *TxSpec, stage string) {
 	var changed []string
 	for k, v := range after.Params {
@@ -324,6 +346,11 @@ func (m *Model) AdoptParam(key, raw string, acctOf map[string]int) (minChanged, 
 		return
 	}
 	p := &m.P
+	if sd, ok := dest.(*string); ok && key == "pos/StakeDenom" && *sd != sdk.DefaultStakeDenom {
+		// from here on stakes move another denomination than fees: the model keeps one account per address
+		m.Desync = "the stake denomination was changed to " + *sd
+		return
+	}
 	switch v := dest.(type) {
 	case *time.Duration:
 		switch key {
